@@ -288,7 +288,7 @@ class ndarray:
                 x = rnp.asarray(x)
             conv.append(x)
         return getattr(ufunc, method)(*conv, **kw)
-    __slots__ = ("o", "d", "n", "tag")
+    __slots__ = ("o", "d", "n", "tag", "__weakref__")   # weak references: caches keyed by array identity are legitimate code
 
     def __init__(self, o, d, n=None):
         self.o = o
